@@ -1259,6 +1259,51 @@ def r16_compxs_scatter_column(idx, r):
         raise AnalysisError("compxs scatter column: evaluation box too small")
 
 
+# precision of the real-valued fields of each format as confirmed by reading the stream modules (and the CCCC / DIF3D file descriptions they
+# cite): a format is written in ONE precision; the listed exception stores both on purpose
+FILE_PRECISION = {
+    "compxs": "double", "dif3d": "double", "fixsrc": "double", "nhflux": "double", "rtflux": "double",
+    "dlayxs": "float", "gamiso": "float", "isotxs": "float", "labels": "float", "pmatrx": "float", "pwdint": "float", "rzflux": "float",
+}
+MIXED_PRECISION_OK = {"geodst": "CCCC GEODST keeps mesh boundaries in double words (MULT) and volumes/bucklings in single precision"}
+
+
+def r17_one_precision_per_format(idx, r):
+    """The reader and the writer of a field are the same statement, so a field stored in the wrong precision reads back 'consistently' - just not
+    as the value that was written (0.1 -> 0.10000000149).  Every real field of a format must use the precision of that format."""
+    n = 0
+    for m in _cccc_modules(idx):
+        base = m.name.rsplit(".", 1)[-1]
+        if base in MIXED_PRECISION_OK:
+            r.ok(f"{base}:mixed-by-format", (m.relpath, 1), msg=MIXED_PRECISION_OK[base])
+            continue
+        sites = []
+        for f in m.all_funcs():
+            for c in iter_calls(f.node):
+                a = call_attr(c)
+                if not isinstance(c.func, ast.Attribute):
+                    continue
+                if a in ("rwFloat", "rwMatrix"):
+                    sites.append(("float", f, c))
+                elif a in ("rwDouble", "rwDoubleMatrix"):
+                    sites.append(("double", f, c))
+                elif a == "rwList" and len(c.args) >= 2 and isinstance(c.args[1], ast.Constant) and c.args[1].value in ("float", "double"):
+                    sites.append((c.args[1].value, f, c))
+        if not sites:
+            continue
+        want = FILE_PRECISION.get(base)
+        if want is None:
+            raise AnalysisError(f"{m.relpath}: real-valued fields found but the format's precision is not in the confirmed table")
+        for prec, f, c in sites:
+            n += 1
+            if prec != want:
+                r.violate(f"{base}:{f.qualname}:{norm(c.args[0])[:50] if c.args else call_attr(c)}:precision", f, f"`{norm(c)[:80]}` stores a {prec} in a {want}-precision format: the value read back is not the "
+                          f"value written ({'17' if want == 'double' else '9'} significant digits are needed, {'9' if prec == 'float' else '17'} are kept) and the record has another length than the format prescribes", node=c)
+        r.ok(f"{base}:{want}", (m.relpath, 1))
+    if n < 60:
+        raise AnalysisError(f"only {n} real-valued rw sites found")
+
+
 def run(idx, chk):
     chk.explanation = (
         "C09: static reader/writer agreement for CCCC records: struct formats, byte counters and ASCII field widths of "
@@ -1309,3 +1354,5 @@ def run(idx, chk):
                  necessary="reading a file produced by the writer returns data equal to what was written, for every stream class and for strings with leading blanks")
     chk.run_rule("R09.16", "COMPXS scattering column: the row numbers attached on reading are the rows the writer flattened, in the same order (exhaustive on a box)", lambda r: r16_compxs_scatter_column(idx, r), floor=2,
                  necessary="reading what was written returns the same matrix")
+    chk.run_rule("R09.17", "every real-valued field of a format is stored in that format's one precision (frozen per format)", lambda r: r17_one_precision_per_format(idx, r), floor=12,
+                 necessary="a double written is the double read back")
